@@ -206,11 +206,16 @@ func (c *RollingFileAppender) Append(e *Event) {
 func (c *RollingFileAppender) Write(b []byte) {
 	c.rotate()
 	verifRoll(c, 20)
-	if file := c.file.Load(); file != nil {
+	for file := c.file.Load(); file != nil; file = c.file.Load() {
 		verifRoll(c, 21)
-		_, _ = file.Write(b)
-		verifRoll(c, 22)
+		// A file loaded just before two rotations completed has been closed
+		// meanwhile; the write fails as a whole and is retried on the current file.
+		_, err := file.Write(b)
+		if pe, ok := err.(*os.PathError); !ok || pe.Err != os.ErrClosed {
+			break
+		}
 	}
+	verifRoll(c, 22)
 }
 
 // Stop flushes and closes both current and previous files.
